@@ -35,8 +35,8 @@ OPS = {
     "MULI": ("alu_capture_overflow", r"^fn:.*<impl u128>::overflowing_mul$", IDX % 1, r"call:unpack\(arg:self\)\.2", None),
     "EXP": ("alu_boolean_overflow", r"^fn:fuel_vm::interpreter::alu::exp$", IDX % 1, IDX % 2, None),
     "EXPI": ("alu_boolean_overflow", r"^fn:.*<impl u64>::overflowing_pow$", IDX % 1, r"call:unpack\(arg:self\)\.2", None),
-    "DIV": ("alu_error", r"^fn:<u64 as std::ops::Div>::div$", IDX % 1, IDX % 2, r"^Eq\(" + IDX % 2 + r",const:0\)$"),
-    "DIVI": ("alu_error", r"^fn:<u64 as std::ops::Div>::div$", IDX % 1, r"call:unpack\(arg:self\)\.2", r"^Eq\(call:unpack\(arg:self\)\.2,const:0\)$"),
+    "DIV": ("alu_error", r"^fn:<u64 as std::ops::(arith::)?Div>::div$", IDX % 1, IDX % 2, r"^Eq\(" + IDX % 2 + r",const:0\)$"),
+    "DIVI": ("alu_error", r"^fn:<u64 as std::ops::(arith::)?Div>::div$", IDX % 1, r"call:unpack\(arg:self\)\.2", r"^Eq\(call:unpack\(arg:self\)\.2,const:0\)$"),
     "MOD": ("alu_error", r"^fn:.*<impl u64>::wrapping_rem$", IDX % 1, IDX % 2, r"^Eq\(" + IDX % 2 + r",const:0\)$"),
     "MODI": ("alu_error", r"^fn:.*<impl u64>::wrapping_rem$", IDX % 1, r"call:unpack\(arg:self\)\.2", r"^Eq\(call:unpack\(arg:self\)\.2,const:0\)$"),
 }
@@ -315,7 +315,7 @@ def run(F, rep, tier, allfacts):
             gf = cg.fns.get(g)
             if gf:
                 for i, j, p, rv, line in assignments(gf):
-                    if rv[0] == "agg" and rv[1] == "fuel_tx::PanicReason":
+                    if rv[0] == "agg" and rv[1].endswith("::PanicReason"):
                         rs.add(rv[2])
         need = {"ReservedRegisterNotWritable"} | {r for r, ops in fam.items() if op in ops}
         rep.check(need <= rs, "MAT-panics", "handler:" + op, "%s:%s" % (f["file"], f["line"]), "%s can no longer raise %s" % (op, sorted(need - rs)))
